@@ -304,6 +304,27 @@ def run(ctx):
                   message=f"{mf.name}: for_update=True does not reach with_for_update() before the query runs",
                   how="true branch of `if for_update` passes with_for_update before execution")
 
+    # ---------------------------------------------------------------- R03.8 journal: decide at replay, not before the append
+    ctx.rule("R03.8", "JournalStorage mutators take no decision on replayed state before appending their record: every read of "
+             "_replay_result / every sync is dominated by _write_log (the log order, not a pre-check under the thread lock, serialises processes)")
+    n_m8 = 0
+    for mname, f in sorted(jr.methods.items()):
+        if mname in EXEMPT or mname in ("_write_log", "_sync_with_backend", "restore_replay_result"):
+            continue
+        g = CFG(f.node, name=f.qualname)
+        wl = [n for n in g.stmt_nodes() for c in n.calls() if self_attr(c.func) == "_write_log"]
+        if not wl:
+            continue
+        n_m8 += 1
+        early = [n for n in g.stmt_nodes() if n not in wl and (any(self_attr(x) == "_replay_result" for x in n.walk())
+                                                               or any(self_attr(c.func) == "_sync_with_backend" for c in n.calls()))
+                 and not g.dominated_by(n, wl)]
+        ctx.check(not early, "R03.8", f.short, "no-pre-check-before-append",
+                  message=f"JournalStorage.{mname} reads replayed state (`{norm(early[0].exprs()[0])[:60] if early else ''}`) before appending its record: a check made "
+                          f"there is only protected by the per-object thread lock, so two processes on one journal can both pass it (e.g. both create the same study name)",
+                  how="all reads of _replay_result / syncs come after _write_log", where=where(f, early[0].ast) if early else None)
+    ctx.floor("R03.8", "journal_mutators", n_m8, 10)
+
     # ---------------------------------------------------------------- R03.7 one critical section per call
     ctx.rule("R03.7", "InMemoryStorage / JournalStorage / GrpcClientCache: each public method interacts with shared state in exactly one "
              "critical section (no read in one region or self-locking call and write in another: lost updates)")
